@@ -1,7 +1,7 @@
 LIBS = ["libvpsc", "libcola"]           # ConstrainedFDLayout links with libvpsc only (no libtopology / libavoid needed)
 HARNESS = "harness/c17.cpp"
 DRIVER_MODE = "c17"
-LEAN_MODULES = ["AdaptaVerif.Props.C17"]
+LEAN_MODULES = ["AdaptaVerif.Props.C17", "AdaptaVerif.Props.C17Tie"]
 LEVEL = "proof"
 LEVEL_TEXT = ("Lean models of floyd_warshall (in-place triple loop as coded in /repo now), of dijkstra/johnsons exactly as "
               "coded (dijkstraHeap: driven by the functional model of PairingHeap<T,TCompare> with insert / extractMin / "
@@ -37,6 +37,17 @@ TRUSTED_BASE = ["Lean 4.33 kernel", "axioms: propext, Classical.choice, Quot.sou
 ASSUMPTIONS = ["weights >= 0 (the property's domain); end points < n",
                "model comparison of floyd_warshall and of the heap-driven dijkstra (incl. extraction order) only for n <= 64 (the verified checker runs on all sizes)",
                "G matrix diagonal is not an observable (left uninitialised by the library unless a self-loop writes it)"]
+
+def regenerate(ROOT, REPO):
+    """floyd_warshall (template instantiated at T = double: three loop nests mutating T** D, edge vector, weight valarray)
+    is regenerated from cola/libcola/shortest_paths.h by cpp2lean on every run and proved equal to
+    Model/ShortestPaths.lean's floydWarshall, with all assertions / array bounds discharged (Props/C17Tie.lean)"""
+    import sys
+    from pathlib import Path
+    sys.path.insert(0, str(Path(ROOT) / "tools" / "cpp2lean"))
+    import jobs
+    return jobs.regenerate(["shortest"], Path(ROOT), Path(REPO))
+
 
 def plan(tier, seed, searching):
     scale = "1"
